@@ -240,13 +240,22 @@ class CFG(object):
         allids = frozenset(n.id for n in N)
         pd = {n.id: allids for n in N}
         pd[self.exit.id] = frozenset([self.exit.id])
+        # nodes that can reach the normal exit over non-exceptional edges; paths ending in a raise are not "normal"
+        reach = {self.exit.id}
+        st = [self.exit]
+        while st:
+            x = st.pop()
+            for p, l in x.pred:
+                if l != 'exc' and p.id not in reach:
+                    reach.add(p.id)
+                    st.append(p)
         changed = True
         while changed:
             changed = False
             for n in reversed(N):
                 if n is self.exit:
                     continue
-                ss = [s for s, l in n.succ if l != 'exc']
+                ss = [s for s, l in n.succ if l != 'exc' and s.id in reach]
                 if not ss:
                     new = frozenset([n.id])
                 else:
